@@ -17,7 +17,7 @@ pub fn prop() -> Prop {
          the reference accepts; when both accept, the top-level definitions (kind, name) agree in order. \
          Non-trivial: a mutated document (either verdict); distinct by text.",
     )
-    .random("documents", check, |t| if t == Tier::Quick { 400_000 } else { 6_000_000 }, |t| if t == Tier::Quick { 500 } else { 900 })
+    .random("documents", check, |t| if t == Tier::Quick { 1_500_000 } else { 12_000_000 }, |t| if t == Tier::Quick { 500 } else { 900 })
     .text(check_text)
     .assumptions(&[
         "grammar: October 2021 (no descriptions on executable definitions, no `&` directive-location syntax extensions, no `extend` without a body)",
